@@ -62,6 +62,15 @@ func (m *Model) RunOpTable(s *Sink, rule string) {
 		s.Obls = append(s.Obls, sub.Obls...)
 	default:
 		s.Note(rule, "operators by cases", cr.pos, "case evaluation not possible (%s); structural reading only", cr.why)
+		// what the cases did decide before they got stuck stands
+		keys := make([]string, 0, len(cr.bad))
+		for k := range cr.bad {
+			keys = append(keys, k)
+		}
+		sort.Strings(keys)
+		for _, k := range keys {
+			s.Violation(rule, "operators by cases|"+k, cr.pos, "evaluating `left %s right`: %s", k, cr.bad[k])
+		}
 		s.Obls = append(s.Obls, sub.Obls...)
 	}
 	m.runOpTableRest(s, rule)
